@@ -11,5 +11,6 @@ RULE = ("random histories of the real app over 5 validators and 4 tokens (one ne
 def run(tier, seed, work):
     quick = tier == "quick"
     mc = [("MC_Locking.tla", "MC_Locking_base.cfg" if quick else "MC_Locking_C11_thorough.cfg")]
+    proofs = [verif.prove("Proofs_LockingArith", work)]   # TLAPS: a slash takes between 1 unit and the whole holding; an unlock releases at most min(asked, held)
     return verif.run_stateful_check("C11", tier, seed, work, mc_list=mc, groups=lc.groups("C11", seed, quick), key_fn=lc.key,
-                                    level="model_checking", assumptions=lc.COMMON_ASSUME, rule=RULE)
+                                    level="model_checking", extra_cov=dict(unbounded_lemmas=proofs), assumptions=lc.COMMON_ASSUME, rule=RULE)
